@@ -1597,7 +1597,8 @@ def run(ctx):
             note="collectable: the class made by a subscription (flat, and the OUTER class of a nested annotation; Union members once typing's cache has "
             "been flushed). NOT collectable, hence outside the lifetime dimension: an annotation used as the array type of another one (key of "
             "_make_array_cached's lru_cache), as the leaf type of a PyTree (lru_cache of PyTree[...]) - which is why the vector BEFORE the drop is the plain part "
-            "only - and array classes themselves (same lru_cache). copy / deepcopy return the original object and cannot outlive it",
+            "only - and array classes themselves, also locally created ones (same lru_cache; an annotation OVER a local array class is collectable but cannot be pickled by reference, "
+            "so it is not in the alphabet). copy / deepcopy return the original object and cannot outlive it. Measured in every run: originals_really_collected",
         ),
         fault=dict(
             what="pickle.loads ABORTED at every point, then one witness operation (load another blob / build another annotation / retry) as the next "
